@@ -85,6 +85,13 @@ class Join(BinaryOperation):
             raise ColumnError(
                 f"Join min_columns={self.min_columns} is not a subset of max_columns={self.max_columns}."
             )
+        if not all(tag.is_key for tag in self.min_columns):
+            # Only key columns are ever used in the equality constraint; this
+            # would otherwise go unnoticed when min_columns == max_columns.
+            raise ColumnError(
+                f"Join min_columns={self.min_columns} includes columns that are not key columns: "
+                f"{ {tag for tag in self.min_columns if not tag.is_key} }."
+            )
 
     @property
     def common_columns(self) -> frozenset[ColumnTag]:
